@@ -1,8 +1,694 @@
 import Grass.Proto
-/- Core `Diag` — stub; replaced by the model (see DESIGN.md §8). -/
+/-
+  C19 core — diagnostics: where they point, how they are rendered, how they reach the Logger.
+
+  Part 1  span arithmetic of `Lexer`            crates/compiler/src/lexer.rs:15-68, 116-173
+          + codemap-0.1.3 `Span::subspan/merge`, `File::find_line_col` (lib.rs:65-100, 238-262)
+  Part 2  `impl Display for SassError`          crates/compiler/src/error.rs:118-172
+  Part 3  logger routing of @debug/@warn/@error crates/compiler/src/evaluate/visitor.rs:1041-1053
+          (`visit_debug_rule`), :1340 (`visit_error_rule`), :1584-1598 (`emit_warning`,
+          `visit_warn_rule`), :1830-1895 (`visit_for_stmt`) over a mini statement language.
+
+  Text is `List Char` (code points); byte offsets are UTF-8 offsets (`Char.utf8Size`), relative to
+  the start of the file (codemap's global `Pos` is the file's `low` plus this offset).
+-/
 namespace Grass.Diag
 
+/-! ## Part 1 — bytes, boundaries, spans -/
+
+/-- UTF-8 length of a text. -/
+def byteLen : List Char → Nat
+  | [] => 0
+  | c :: cs => c.utf8Size + byteLen cs
+
+/-- `n` is a character boundary of the text (0 and the total length included).  This is what
+    `str::is_char_boundary` answers; slicing at any other offset panics in Rust. -/
+def isBoundary : List Char → Nat → Bool
+  | _, 0 => true
+  | [], _ + 1 => false
+  | c :: cs, n + 1 => if n + 1 < c.utf8Size then false else isBoundary cs (n + 1 - c.utf8Size)
+
+/-- Characters from byte offset `n` on; `none` when `n` is not a boundary (Rust: slice panic). -/
+def dropBytes : List Char → Nat → Option (List Char)
+  | cs, 0 => some cs
+  | [], _ + 1 => none
+  | c :: cs, n + 1 => if n + 1 < c.utf8Size then none else dropBytes cs (n + 1 - c.utf8Size)
+
+/-- The first `n` bytes as characters; `none` when `n` is not a boundary. -/
+def takeBytes : List Char → Nat → Option (List Char)
+  | _, 0 => some []
+  | [], _ + 1 => none
+  | c :: cs, n + 1 =>
+    if n + 1 < c.utf8Size then none else (takeBytes cs (n + 1 - c.utf8Size)).map (c :: ·)
+
+/-- codemap `Span`, file-relative: `lo` first byte, `hi` one past the last. -/
+structure Span where
+  lo : Nat
+  hi : Nat
+  deriving DecidableEq, Repr, Inhabited
+
+def Span.len (s : Span) : Nat := s.hi - s.lo
+
+/-- `Span::subspan` (codemap lib.rs:65): asserts `end >= begin` and `low + end <= high`;
+    `none` = the assertion fails (panic). -/
+def Span.subspan (s : Span) (b e : Nat) : Option Span :=
+  if b ≤ e ∧ s.lo + e ≤ s.hi then some ⟨s.lo + b, s.lo + e⟩ else none
+
+/-- `Span::merge` (codemap lib.rs:95). -/
+def Span.merge (a b : Span) : Span := ⟨min a.lo b.lo, max a.hi b.hi⟩
+
+/-- `File::source_slice` restricted to a span (`none` = not inside / not on boundaries). -/
+def slice (file : List Char) (sp : Span) : Option (List Char) :=
+  if sp.lo ≤ sp.hi then (dropBytes file sp.lo).bind (takeBytes · (sp.hi - sp.lo)) else none
+
+/-- `Token` (lexer.rs:8): the character and its byte position in the lexed text. -/
+structure Tok where
+  kind : Char
+  pos : Nat
+  deriving DecidableEq, Repr, Inhabited
+
+def Tok.stop (t : Tok) : Nat := t.pos + t.kind.utf8Size
+
+/-- `TokenLexer::next` (lexer.rs:128-146): form feed and `\r`, `\r\n` become `\n`; for `\r\n` the
+    token sits on the `\n` byte.  `cur` is the byte cursor. -/
+def tokenize : List Char → Nat → List Tok
+  | [], _ => []
+  | c :: cs, cur =>
+    if c = '\x0c' then ⟨'\n', cur⟩ :: tokenize cs (cur + 1)
+    else if c = '\r' then
+      match cs with
+      | [] => [⟨'\n', cur⟩]
+      | d :: cs' =>
+        if d = '\n' then ⟨'\n', cur + 1⟩ :: tokenize cs' (cur + 2)
+        else ⟨'\n', cur⟩ :: tokenize (d :: cs') (cur + 1)
+    else ⟨c, cur⟩ :: tokenize cs (cur + c.utf8Size)
+termination_by cs => cs.length
+
+/-- `Lexer` (lexer.rs:14). -/
+structure Lexer where
+  buf : List Tok
+  entire : Span
+  cursor : Nat
+  isExpanded : Bool
+  deriving Repr
+
+/-- `span_at_index` (lexer.rs:38-53). -/
+def Lexer.spanAtIndex (lx : Lexer) (idx : Nat) : Option Span :=
+  if lx.isExpanded then some lx.entire else
+  match lx.buf[idx]? with
+  | some t => lx.entire.subspan t.pos t.stop
+  | none =>
+    match lx.buf.getLast? with
+    | some t => lx.entire.subspan t.pos t.stop
+    | none => lx.entire.subspan 0 0
+
+/-- `prev_span` (lexer.rs:62): `cursor.saturating_sub(1)`. -/
+def Lexer.prevSpan (lx : Lexer) : Option Span := lx.spanAtIndex (lx.cursor - 1)
+
+/-- `current_span` (lexer.rs:66). -/
+def Lexer.currentSpan (lx : Lexer) : Option Span := lx.spanAtIndex lx.cursor
+
+/-- `span_from` (lexer.rs:55). -/
+def Lexer.spanFrom (lx : Lexer) (start : Nat) : Option Span :=
+  match lx.spanAtIndex start, lx.prevSpan with
+  | some a, some b => some (a.merge b)
+  | _, _ => none
+
+/-- When does re-lexed text count as "expanded" (spans fall back to the whole source span)?
+    * `onlyWhenLonger`     — as found on the pinned tree (`s.len() > entire_span.len()`), D19;
+    * `whenLengthDiffers`  — the code as it stands (lexer.rs:160 `s.len() != entire_span.len()`);
+    * `whenTextDiffers`    — the specified rule: offsets into the text are meaningful for the source
+                             only when the text *is* the source text of the span. -/
+inductive ExpandRule where
+  | onlyWhenLonger | whenLengthDiffers | whenTextDiffers
+  deriving DecidableEq, Repr, Inhabited
+
+/-- Name used in DESIGN §8 for the as-found switch. -/
+abbrev expandedOnlyWhenLonger : ExpandRule := .onlyWhenLonger
+
+def isExpandedBy (rule : ExpandRule) (file s : List Char) (entire : Span) : Bool :=
+  match rule with
+  | .onlyWhenLonger => decide (byteLen s > entire.len)
+  | .whenLengthDiffers => decide (byteLen s ≠ entire.len)
+  | .whenTextDiffers => decide (slice file entire ≠ some s)
+
+/-- `Lexer::new_from_file` (lexer.rs:154). -/
+def Lexer.ofFile (file : List Char) : Lexer :=
+  { buf := tokenize file 0, entire := ⟨0, byteLen file⟩, cursor := 0, isExpanded := false }
+
+/-- `Lexer::new_from_string` (lexer.rs:159): `s` is text produced at evaluation time (resolved
+    interpolation of a selector, media query, @at-root query, keyframes selector, …) and `entire`
+    the span of the source it came from. -/
+def Lexer.ofString (rule : ExpandRule) (file s : List Char) (entire : Span) : Lexer :=
+  { buf := tokenize s 0, entire := entire, cursor := 0, isExpanded := isExpandedBy rule file s entire }
+
+/-- `set_cursor` (lexer.rs:90): any value is accepted. -/
+def Lexer.setCursor (lx : Lexer) (c : Nat) : Lexer := { lx with cursor := c }
+
+/-! ### codemap look-up (`find_line_col`, lib.rs:253) -/
+
+/-- Line and column (both 0-based, column in characters) of byte offset `n`; `none` = the offset
+    is past the end or inside a character (codemap panics). `l c` is the position of the head. -/
+def lineColAux : List Char → Nat → Nat → Nat → Option (Nat × Nat)
+  | _, 0, l, c => some (l, c)
+  | [], _ + 1, _, _ => none
+  | ch :: cs, n + 1, l, c =>
+    if n + 1 < ch.utf8Size then none
+    else if ch = '\n' then lineColAux cs (n + 1 - ch.utf8Size) (l + 1) 0
+    else lineColAux cs (n + 1 - ch.utf8Size) l (c + 1)
+
+def lookUpPos (file : List Char) (off : Nat) : Option (Nat × Nat) := lineColAux file off 0 0
+
+/-- All (line, column) pairs that are the image of a position of the file, in order. -/
+def positionsAux : List Char → Nat → Nat → List (Nat × Nat)
+  | [], l, c => [(l, c)]
+  | ch :: cs, l, c => (l, c) :: (if ch = '\n' then positionsAux cs (l + 1) 0 else positionsAux cs l (c + 1))
+
+def positions (file : List Char) : List (Nat × Nat) := positionsAux file 0 0
+
+def lexLe (a b : Nat × Nat) : Bool := a.1 < b.1 || (a.1 == b.1 && a.2 ≤ b.2)
+
+/-- **P̂ for locations**: a reported `begin`/`end` pair names two real positions of the file's
+    text, in order.  Evaluated by the driver on what grass reports. -/
+def spanLocOk (file : List Char) (b e : Nat × Nat) : Bool :=
+  (positions file).contains b && (positions file).contains e && lexLe b e
+
+/-- `CodeMap::look_up_span` for a span of this file: `none` = codemap panics. -/
+def lookUpSpan (file : List Char) (sp : Span) : Option ((Nat × Nat) × (Nat × Nat)) :=
+  match lookUpPos file sp.lo, lookUpPos file sp.hi with
+  | some b, some e => some (b, e)
+  | _, _ => none
+
+/-! ## Part 2 — the renderer (`impl Display for SassError`, error.rs:118-172) -/
+
+def natStr (n : Nat) : List Char := (Nat.repr n).toList
+
+/-- `trim_end_matches(&['\n', '\r'])`. -/
+def trimEol (l : List Char) : List Char :=
+  (l.reverse.dropWhile (fun c => c = '\n' || c = '\r')).reverse
+
+/-- Lines as codemap sees them: split on `\n` only. -/
+def splitLines : List Char → List (List Char)
+  | [] => [[]]
+  | c :: cs =>
+    match splitLines cs with
+    | [] => [[]]                       -- unreachable
+    | l :: ls => if c = '\n' then [] :: l :: ls else (c :: l) :: ls
+
+/-- `File::source_line` (codemap lib.rs:302). -/
+def sourceLine (file : List Char) (line : Nat) : Option (List Char) :=
+  (splitLines file)[line]?.map trimEol
+
+structure RenderLoc where
+  name : List Char
+  srcLine : List Char
+  bl : Nat
+  bc : Nat
+  el : Nat
+  ec : Nat
+
+/-- error.rs:160: `loc.end.column.max(loc.begin.column) - loc.begin.column.min(loc.end.column)`. -/
+def caretCount (bc ec : Nat) : Nat := max ec bc - min bc ec
+
+/-- error.rs:143: one space per digit of the 1-based line number, plus one. -/
+def padding (line1 : Nat) : List Char := List.replicate ((natStr line1).length + 1) ' '
+
+def errorPrefix : List Char := ['E', 'r', 'r', 'o', 'r', ':', ' ']
+
+def render (unicode : Bool) (msg : List Char) (loc : RenderLoc) : List Char :=
+  let firstBar := if unicode then '╷' else ','
+  let midBar := if unicode then '│' else '|'
+  let lastBar := if unicode then '╵' else '\''
+  let line := loc.bl + 1
+  let col := loc.bc + 1
+  let pad := padding line
+  errorPrefix ++ msg ++ ['\n']
+    ++ (pad ++ [firstBar] ++ ['\n'])
+    ++ (natStr line ++ [' ', midBar, ' '] ++ loc.srcLine ++ ['\n'])
+    ++ (pad ++ [midBar, ' '] ++ List.replicate loc.bc ' ' ++ List.replicate (caretCount loc.bc loc.ec) '^' ++ ['\n'])
+    ++ (pad ++ [lastBar] ++ ['\n'])
+    ++ (if unicode then
+          ['.', '/'] ++ loc.name ++ [':'] ++ natStr line ++ [':'] ++ natStr col ++ ['\n']
+        else
+          [' ', ' '] ++ loc.name ++ [' '] ++ natStr line ++ [':'] ++ natStr col
+            ++ "  root stylesheet".toList ++ ['\n'])
+
+/-! ## Part 3 — which diagnostics reach the Logger (mini statement language) -/
+
+inductive Kind where
+  | debug | warn
+  deriving DecidableEq, Repr, Inhabited
+
+structure Event where
+  kind : Kind
+  file : Nat
+  line : Nat
+  msg : List Char
+  deriving DecidableEq, Repr, Inhabited
+
+/-- What identifies one directive: kind, file, line (the generator prints one directive per line,
+    so (file, line) also identifies the directive's span — the key of `warnings_emitted`). -/
+def Event.key (e : Event) : Kind × Nat × Nat := (e.kind, e.file, e.line)
+
+inductive Val where
+  | int (n : Int)
+  | str (id : Nat)               -- the quoted string "s<id>"
+  deriving DecidableEq, Repr, Inhabited
+
+inductive Expr where
+  | int (n : Int)
+  | str (id : Nat)
+  | var (x : Nat)                -- `$v<x>`
+  | call (f : Nat) (arg : Expr)  -- `f<f>(arg)`, a user-defined function
+  deriving Repr, Inhabited
+
+inductive Cond where
+  | lit (b : Bool)
+  | varEq (x : Nat) (n : Int)    -- `$v<x> == n`
+  deriving Repr, Inhabited
+
+mutual
+inductive Stmt where
+  | debug (line : Nat) (e : Expr)
+  | warn (line : Nat) (e : Expr)
+  | error (line : Nat) (e : Expr)
+  | forLoop (line : Nat) (x : Nat) (frm to : Int) (inclusive : Bool) (body : Stmts)
+  | ifElse (line : Nat) (c : Cond) (thn els : Stmts)
+  | block (body : Stmts)                                  -- a style rule around the body
+  | mixinDef (m : Nat) (param : Option Nat) (body : Stmts)
+  | funcDef (f : Nat) (param : Nat) (body : Stmts) (retLine : Nat) (ret : Expr)
+  | incl (line : Nat) (m : Nat) (arg : Option Expr)
+  | letCall (line : Nat) (e : Expr)                       -- `$tmp: <expr>;`
+  | importFile (line : Nat) (file : Nat)
+inductive Stmts where
+  | nil
+  | cons (s : Stmt) (rest : Stmts)
+end
+
+instance : Inhabited Stmts := ⟨.nil⟩
+
+structure MixinDef where
+  param : Option Nat
+  body : Stmts
+  file : Nat
+
+structure FuncDef where
+  param : Nat
+  body : Stmts
+  retLine : Nat
+  ret : Expr
+  file : Nat
+
+/-- Configuration: `quiet` is `Options::quiet`; `warnDedupBySpan = true` is the behaviour found on
+    the pinned tree (D12: `if self.warnings_emitted.insert(span) { … }` around `visit_warn_rule`). -/
+structure Cfg where
+  quiet : Bool
+  warnDedupBySpan : Bool
+  deriving Repr
+
+structure St where
+  mixins : List (Nat × MixinDef)
+  funcs : List (Nat × FuncDef)
+  emitted : List (Nat × Nat)               -- `warnings_emitted`
+  log : List Event                         -- what reached the Logger, oldest first
+  visited : List (Kind × Nat × Nat)        -- ghost: every completed @debug/@warn execution
+
+def St.init : St := { mixins := [], funcs := [], emitted := [], log := [], visited := [] }
+
+inductive Err where
+  | user (file line : Nat) (msg : List Char)     -- @error
+  | undefinedVar (file line : Nat)
+  | undefinedMixin (file line : Nat)
+  deriving DecidableEq, Repr, Inhabited
+
+inductive Res (α : Type) where
+  | ok (a : α) (st : St)
+  | err (e : Err) (st : St)
+  | outOfFuel
+  | unsupported
+
+def intStr (n : Int) : List Char :=
+  match n with
+  | .ofNat k => natStr k
+  | .negSucc k => '-' :: natStr (k + 1)
+
+/-- `Value::inspect` on the two value shapes of the fragment; `to_css_string` (used by @warn)
+    agrees with it on them (quoted strings keep their quotes). -/
+def inspect : Val → List Char
+  | .int n => intStr n
+  | .str id => ['"', 's'] ++ natStr id ++ ['"']
+
+abbrev Env := List (Nat × Val)
+
+def lookupVar (env : Env) (x : Nat) : Option Val := (env.find? (·.1 == x)).map (·.2)
+
+/-- `visit_debug_rule` after a successful evaluation / under quiet (visitor.rs:1041-1053). -/
+def St.doDebug (cfg : Cfg) (st : St) (file line : Nat) (msg : List Char) : St :=
+  { st with
+    log := if cfg.quiet then st.log else st.log ++ [⟨.debug, file, line, msg⟩]
+    visited := st.visited ++ [(.debug, file, line)] }
+
+/-- `emit_warning` (visitor.rs:1584-1590) for an executed `@warn`. -/
+def St.doWarn (cfg : Cfg) (st : St) (file line : Nat) (msg : List Char) : St :=
+  { st with
+    log := if cfg.quiet then st.log else st.log ++ [⟨.warn, file, line, msg⟩]
+    emitted := if cfg.warnDedupBySpan then (file, line) :: st.emitted else st.emitted
+    visited := st.visited ++ [(.warn, file, line)] }
+
+/-- As found (D12): a `@warn` whose span is already in `warnings_emitted` does nothing. -/
+def St.skipWarn (st : St) (file line : Nat) : St :=
+  { st with visited := st.visited ++ [(.warn, file, line)] }
+
+def St.defMixin (st : St) (m : Nat) (d : MixinDef) : St := { st with mixins := (m, d) :: st.mixins }
+def St.defFunc (st : St) (f : Nat) (d : FuncDef) : St := { st with funcs := (f, d) :: st.funcs }
+
+/-- `visit_for_stmt` (visitor.rs:1830-1895): direction, inclusive adjustment, iteration count. -/
+def forDir (frm to : Int) : Int := if frm > to then -1 else 1
+def forCount (frm to : Int) (inclusive : Bool) : Nat :=
+  let to' := if inclusive then to + forDir frm to else to
+  (to' - frm).natAbs
+
+mutual
+/-- Expression evaluation (function calls run their body, which may log). -/
+def evalExpr (cfg : Cfg) (prog : List Stmts) : Nat → Nat → Nat → Env → Expr → St → Res Val
+  | 0, _, _, _, _, _ => .outOfFuel
+  | fuel + 1, file, line, env, e, st =>
+    match e with
+    | .int n => .ok (.int n) st
+    | .str id => .ok (.str id) st
+    | .var x =>
+      match lookupVar env x with
+      | some v => .ok v st
+      | none => .err (.undefinedVar file line) st
+    | .call f arg =>
+      match evalExpr cfg prog fuel file line env arg st with
+      | .ok v st1 =>
+        match (st1.funcs.find? (·.1 == f)).map (·.2) with
+        | none => .unsupported            -- plain CSS function: outside the fragment
+        | some d =>
+          match execStmts cfg prog fuel d.file [(d.param, v)] d.body st1 with
+          | .ok _ st2 => evalExpr cfg prog fuel d.file d.retLine [(d.param, v)] d.ret st2
+          | .err e st2 => .err e st2
+          | .outOfFuel => .outOfFuel
+          | .unsupported => .unsupported
+      | r => r
+
+def execStmt (cfg : Cfg) (prog : List Stmts) : Nat → Nat → Env → Stmt → St → Res Unit
+  | 0, _, _, _, _ => .outOfFuel
+  | fuel + 1, file, env, s, st =>
+    match s with
+    | .debug line e =>
+      -- visitor.rs:1042: under quiet the expression is not even evaluated
+      if cfg.quiet then .ok () (st.doDebug cfg file line [])
+      else
+        match evalExpr cfg prog fuel file line env e st with
+        | .ok v st1 => .ok () (st1.doDebug cfg file line (inspect v))
+        | .err e st1 => .err e st1
+        | .outOfFuel => .outOfFuel
+        | .unsupported => .unsupported
+    | .warn line e =>
+      if cfg.warnDedupBySpan && st.emitted.contains (file, line) then .ok () (st.skipWarn file line)
+      else
+        match evalExpr cfg prog fuel file line env e st with
+        | .ok v st1 => .ok () (st1.doWarn cfg file line (inspect v))
+        | .err e st1 => .err e st1
+        | .outOfFuel => .outOfFuel
+        | .unsupported => .unsupported
+    | .error line e =>
+      match evalExpr cfg prog fuel file line env e st with
+      | .ok v st1 => .err (.user file line (inspect v)) st1
+      | .err e st1 => .err e st1
+      | .outOfFuel => .outOfFuel
+      | .unsupported => .unsupported
+    | .forLoop _ x frm to inclusive body =>
+      execFor cfg prog fuel file env x body frm (forDir frm to) (forCount frm to inclusive) st
+    | .ifElse line c thn els =>
+      match c with
+      | .lit b => execStmts cfg prog fuel file env (if b then thn else els) st
+      | .varEq x n =>
+        match lookupVar env x with
+        | none => .err (.undefinedVar file line) st
+        | some v => execStmts cfg prog fuel file env (if v = .int n then thn else els) st
+    | .block body => execStmts cfg prog fuel file env body st
+    | .mixinDef m p body => .ok () (st.defMixin m ⟨p, body, file⟩)
+    | .funcDef f p body rl ret => .ok () (st.defFunc f ⟨p, body, rl, ret, file⟩)
+    | .incl line m arg =>
+      match (st.mixins.find? (·.1 == m)).map (·.2) with
+      | none => .err (.undefinedMixin file line) st
+      | some d =>
+        match d.param, arg with
+        | none, none => execStmts cfg prog fuel d.file [] d.body st
+        | some x, some a =>
+          match evalExpr cfg prog fuel file line env a st with
+          | .ok v st1 => execStmts cfg prog fuel d.file [(x, v)] d.body st1
+          | .err e st1 => .err e st1
+          | .outOfFuel => .outOfFuel
+          | .unsupported => .unsupported
+        | _, _ => .unsupported
+    | .letCall line e =>
+      match evalExpr cfg prog fuel file line env e st with
+      | .ok _ st1 => .ok () st1
+      | .err e st1 => .err e st1
+      | .outOfFuel => .outOfFuel
+      | .unsupported => .unsupported
+    | .importFile _ k =>
+      match prog[k]? with
+      | none => .unsupported
+      | some body => execStmts cfg prog fuel k env body st
+
+def execStmts (cfg : Cfg) (prog : List Stmts) : Nat → Nat → Env → Stmts → St → Res Unit
+  | 0, _, _, _, _ => .outOfFuel
+  | fuel + 1, file, env, ss, st =>
+    match ss with
+    | .nil => .ok () st
+    | .cons s rest =>
+      match execStmt cfg prog fuel file env s st with
+      | .ok _ st1 => execStmts cfg prog fuel file env rest st1
+      | r => r
+
+/-- The `while i != to` loop of `visit_for_stmt`, `count` iterations left. -/
+def execFor (cfg : Cfg) (prog : List Stmts) : Nat → Nat → Env → Nat → Stmts → Int → Int → Nat → St → Res Unit
+  | 0, _, _, _, _, _, _, _, _ => .outOfFuel
+  | fuel + 1, file, env, x, body, i, dir, count, st =>
+    match count with
+    | 0 => .ok () st
+    | count + 1 =>
+      match execStmts cfg prog fuel file ((x, .int i) :: env) body st with
+      | .ok _ st1 => execFor cfg prog fuel file env x body (i + dir) dir count st1
+      | r => r
+end
+
+/-- Run a project: `prog[0]` is the entry file. -/
+def run (cfg : Cfg) (fuel : Nat) (prog : List Stmts) : Res Unit :=
+  match prog with
+  | [] => .unsupported
+  | entry :: _ => execStmts cfg prog fuel 0 [] entry St.init
+
+def Res.st? {α : Type} : Res α → Option St
+  | .ok _ st => some st
+  | .err _ st => some st
+  | _ => none
+
+/-- The code as it stands now. -/
+def Cfg.current (quiet : Bool) : Cfg := { quiet := quiet, warnDedupBySpan := false }
+
+/-! ## driver entry points -/
+open Grass.Proto
+
+def hexOfChars (l : List Char) : String := hexEncode (String.ofList l)
+
+def charsOfHex (s : String) : Option (List Char) := (hexDecode s).map String.toList
+
+def ruleOfStr (s : String) : Option ExpandRule :=
+  if s == "longer" then some .onlyWhenLonger
+  else if s == "lendiff" then some .whenLengthDiffers
+  else if s == "textdiff" then some .whenTextDiffers
+  else none
+
+/-! ### reading a program (prefix notation, one token per item)
+
+    stmts := "[" stmt* "]"
+    stmt  := D line expr | W line expr | E line expr | F line x from to incl stmts
+           | I line cond stmts stmts | B stmts | M m param stmts | U f param stmts retline expr
+           | N line m arg | L line expr | P line file
+    expr  := i n | s id | v x | c f expr          cond := t | f | q x n
+    param := _ | x                                 arg := _ | expr -/
+
+def readExpr : Nat → List String → Option (Expr × List String)
+  | 0, _ => none
+  | fuel + 1, toks =>
+    match toks with
+    | "i" :: n :: r => n.toInt?.map (fun n => (.int n, r))
+    | "s" :: n :: r => n.toNat?.map (fun n => (.str n, r))
+    | "v" :: n :: r => n.toNat?.map (fun n => (.var n, r))
+    | "c" :: f :: r =>
+      match f.toNat?, readExpr fuel r with
+      | some f, some (a, r') => some (.call f a, r')
+      | _, _ => none
+    | _ => none
+
+def readCond : List String → Option (Cond × List String)
+  | "t" :: r => some (.lit true, r)
+  | "f" :: r => some (.lit false, r)
+  | "q" :: x :: n :: r =>
+    match x.toNat?, n.toInt? with
+    | some x, some n => some (.varEq x n, r)
+    | _, _ => none
+  | _ => none
+
+mutual
+def readStmt : Nat → List String → Option (Stmt × List String)
+  | 0, _ => none
+  | fuel + 1, toks =>
+    match toks with
+    | "D" :: l :: r =>
+      match l.toNat?, readExpr (fuel + 1) r with
+      | some l, some (e, r') => some (.debug l e, r')
+      | _, _ => none
+    | "W" :: l :: r =>
+      match l.toNat?, readExpr (fuel + 1) r with
+      | some l, some (e, r') => some (.warn l e, r')
+      | _, _ => none
+    | "E" :: l :: r =>
+      match l.toNat?, readExpr (fuel + 1) r with
+      | some l, some (e, r') => some (.error l e, r')
+      | _, _ => none
+    | "L" :: l :: r =>
+      match l.toNat?, readExpr (fuel + 1) r with
+      | some l, some (e, r') => some (.letCall l e, r')
+      | _, _ => none
+    | "F" :: l :: x :: a :: b :: inc :: r =>
+      match l.toNat?, x.toNat?, a.toInt?, b.toInt?, parseBool? inc, readStmts fuel r with
+      | some l, some x, some a, some b, some inc, some (body, r') => some (.forLoop l x a b inc body, r')
+      | _, _, _, _, _, _ => none
+    | "I" :: l :: r =>
+      match l.toNat?, readCond r with
+      | some l, some (c, r1) =>
+        match readStmts fuel r1 with
+        | some (t, r2) =>
+          match readStmts fuel r2 with
+          | some (e, r3) => some (.ifElse l c t e, r3)
+          | none => none
+        | none => none
+      | _, _ => none
+    | "B" :: r => (readStmts fuel r).map (fun (b, r') => (.block b, r'))
+    | "M" :: m :: p :: r =>
+      match m.toNat?, (if p == "_" then some none else p.toNat?.map some), readStmts fuel r with
+      | some m, some p, some (b, r') => some (.mixinDef m p b, r')
+      | _, _, _ => none
+    | "U" :: f :: p :: r =>
+      match f.toNat?, p.toNat?, readStmts fuel r with
+      | some f, some p, some (b, rl :: r1) =>
+        match rl.toNat?, readExpr (fuel + 1) r1 with
+        | some rl, some (e, r2) => some (.funcDef f p b rl e, r2)
+        | _, _ => none
+      | _, _, _ => none
+    | "N" :: l :: m :: "_" :: r =>
+      match l.toNat?, m.toNat? with
+      | some l, some m => some (.incl l m none, r)
+      | _, _ => none
+    | "N" :: l :: m :: r =>
+      match l.toNat?, m.toNat?, readExpr (fuel + 1) r with
+      | some l, some m, some (e, r') => some (.incl l m (some e), r')
+      | _, _, _ => none
+    | "P" :: l :: k :: r =>
+      match l.toNat?, k.toNat? with
+      | some l, some k => some (.importFile l k, r)
+      | _, _ => none
+    | _ => none
+
+def readStmts : Nat → List String → Option (Stmts × List String)
+  | 0, _ => none
+  | fuel + 1, toks =>
+    match toks with
+    | "[" :: r => readItems fuel r
+    | _ => none
+
+def readItems : Nat → List String → Option (Stmts × List String)
+  | 0, _ => none
+  | fuel + 1, toks =>
+    match toks with
+    | "]" :: r => some (.nil, r)
+    | _ =>
+      match readStmt fuel toks with
+      | some (s, r) =>
+        match readItems fuel r with
+        | some (ss, r') => some (.cons s ss, r')
+        | none => none
+      | none => none
+end
+
+def readFiles : Nat → List String → Option (List Stmts)
+  | 0, _ => none
+  | fuel + 1, toks =>
+    match toks with
+    | [] => some []
+    | _ =>
+      match readStmts (toks.length + 2) toks with
+      | some (f, r) => (readFiles fuel r).map (f :: ·)
+      | none => none
+
+def kindStr : Kind → String
+  | .debug => "debug" | .warn => "warn"
+
+def eventStr (e : Event) : String := s!"{kindStr e.kind}:{e.file}:{e.line}:{hexOfChars e.msg}"
+
+def errStr : Err → String
+  | .user f l m => s!"err:user:{f}:{l}:{hexOfChars m}"
+  | .undefinedVar f l => s!"err:undefvar:{f}:{l}:-"
+  | .undefinedMixin f l => s!"err:undefmixin:{f}:{l}:-"
+
+def resStr (r : Res Unit) : String :=
+  match r with
+  | .ok _ st => s!"ok ok {st.visited.length} |" ++ String.join (st.log.map (fun e => " " ++ eventStr e))
+  | .err e st => s!"ok {errStr e} {st.visited.length} |" ++ String.join (st.log.map (fun e => " " ++ eventStr e))
+  | .outOfFuel => "unsupported fuel"
+  | .unsupported => "unsupported"
+
+def locStr (p : (Nat × Nat) × (Nat × Nat)) : String := s!"{p.1.1} {p.1.2} {p.2.1} {p.2.2}"
+
 def handle : List String → String
+  -- trace <quiet> <dedup> <file0 stmts> <file1 stmts> …
+  | "trace" :: q :: d :: rest =>
+    match parseBool? q, parseBool? d, readFiles (rest.length + 2) rest with
+    | some q, some d, some prog => resStr (run { quiet := q, warnDedupBySpan := d } 4000 prog)
+    | _, _, _ => "bad-op"
+  -- locok <hexfile> bl bc el ec : P̂ on a reported location
+  | ["locok", f, bl, bc, el, ec] =>
+    match charsOfHex f, bl.toNat?, bc.toNat?, el.toNat?, ec.toNat? with
+    | some f, some bl, some bc, some el, some ec => "ok " ++ boolStr (spanLocOk f (bl, bc) (el, ec))
+    | _, _, _, _, _ => "bad-op"
+  -- render <unicode> <hexmsg> <hexname> <hexfile> bl bc el ec : the model's rendering
+  | ["render", u, m, n, f, bl, bc, el, ec] =>
+    match parseBool? u, charsOfHex m, charsOfHex n, charsOfHex f, bl.toNat?, bc.toNat?, el.toNat?, ec.toNat? with
+    | some u, some m, some n, some f, some bl, some bc, some el, some ec =>
+      match sourceLine f bl with
+      | some ln => "ok " ++ hexOfChars (render u m ⟨n, ln, bl, bc, el, ec⟩)
+      | none => "ok no-such-line"
+    | _, _, _, _, _, _, _, _ => "bad-op"
+  -- relex <rule> <hexfile> <lo> <hi> <hextext> <idx> : span_at_index of re-lexed text + look-up
+  | ["relex", rule, f, lo, hi, s, idx] =>
+    match ruleOfStr rule, charsOfHex f, lo.toNat?, hi.toNat?, charsOfHex s, idx.toNat? with
+    | some rule, some f, some lo, some hi, some s, some idx =>
+      let lx := Lexer.ofString rule f s ⟨lo, hi⟩
+      match lx.spanAtIndex idx with
+      | none => "ok subspan-panics"
+      | some sp =>
+        match lookUpSpan f sp with
+        | none => s!"ok splits-char {sp.lo} {sp.hi} {boolStr lx.isExpanded}"
+        | some p => s!"ok span {sp.lo} {sp.hi} {locStr p} {boolStr lx.isExpanded}"
+    | _, _, _, _, _, _ => "bad-op"
+  -- filespan <hexfile> <idx> : span_at_index of the file lexer + look-up
+  | ["filespan", f, idx] =>
+    match charsOfHex f, idx.toNat? with
+    | some f, some idx =>
+      match (Lexer.ofFile f).spanAtIndex idx with
+      | none => "ok subspan-panics"
+      | some sp =>
+        match lookUpSpan f sp with
+        | none => s!"ok splits-char {sp.lo} {sp.hi}"
+        | some p => s!"ok span {sp.lo} {sp.hi} {locStr p}"
+    | _, _ => "bad-op"
   | _ => "bad-op"
 
 end Grass.Diag
